@@ -153,7 +153,7 @@ pub fn run(ctx: &mut Ctx) {
         }
     }
     ctx.exhaustive.insert("all ordered pairs of documents with <=3 nodes".into(), !ctx.miri);
-    let n = ctx.budget(60_000, 2_000_000);
+    let n = ctx.budget(500_000, 10_000_000);
     for i in 0..n {
         if !ctx.next_case() {
             return;
